@@ -140,4 +140,84 @@ Section Sys.
     - destruct (diff_is_prefix sz (sM s) (j_loader (sA s)) mi mb n) as [k ->].
       apply (G (sM s) (sA s) wire k); try assumption; [apply pres_wire|apply RA].
   Qed.
+
+  (* ---- progress: a replica that is behind is always sent something ---- *)
+  (* currentVersion is the version of an entry (or the journal never held anything) *)
+  Definition curin (j : journal) : Prop :=
+    (j_entries j = [] /\ j_cur j = 0) \/ (exists e, In e (j_entries j) /\ e_ver e = j_cur j).
+
+  Lemma take_limits_nonempty sz mi mb n b l : l <> [] -> take_limits sz mi mb n b l <> [].
+  Proof. destruct l as [|e r]; [congruence|]. intros _. simpl. destruct ((mi <=? n + 1) || (mb <=? b + sz e)); discriminate. Qed.
+
+  (* whatever the item and byte limits are (even zero or below one event's size) *)
+  Lemma diff_progress sz j from mi mb : curin j -> 0 <= from -> from < j_cur j -> journal_diff sz j from mi mb <> [].
+  Proof.
+    intros [[_ C]|(e & I & E)] F L; [lia|]. unfold journal_diff.
+    destruct (j_cur j <=? from) eqn:Q; [apply Z.leb_le in Q; lia|]. apply take_limits_nonempty.
+    intro N. assert (X : In e (filter (fun x => from <? e_ver x) (j_entries j))) by (apply filter_In; split; [exact I|apply Z.ltb_lt; lia]).
+    rewrite N in X. destruct X.
+  Qed.
+
+  Lemma add_event_curin j e j' : add_event H j e = Some j' -> curin j'.
+  Proof. intro A. apply add_event_spec in A as (_ & E & C & _). right. exists e. rewrite E, C, in_app_iff. simpl. tauto. Qed.
+
+  Lemma add_events_curin es : forall j j', curin j -> add_events H j es = Some j' -> curin j'.
+  Proof.
+    induction es as [|e r IH]; simpl; intros j j' C E; [inversion E; subst; exact C|].
+    destruct (add_event H j e) as [j1|] eqn:A; [|discriminate]. eapply IH; [eapply add_event_curin; exact A|exact E].
+  Qed.
+
+  Lemma apply_update_curin j src lk j' evs : curin j -> apply_update H j src lk = Some (j', evs) -> curin j'.
+  Proof.
+    intro C. unfold apply_update. destruct src as [|s0 sr]; [intro E; inversion E; subst; exact C|].
+    destruct (add_events H j _) as [j1|] eqn:A; [|discriminate]. intro E. inversion E; subst.
+    apply (add_events_curin _ _ _ C) in A. exact A.
+  Qed.
+
+  Lemma load_journal_curin saved hdr chunks j' b : load_journal H saved hdr chunks = Some (j', b) -> curin j'.
+  Proof.
+    unfold load_journal. destruct (add_events H (empty_journal (j_compact saved)) _) as [j1|] eqn:A; [|discriminate].
+    intro E. inversion E; subst. apply add_events_curin in A; [exact A|]. left. split; reflexivity.
+  Qed.
+
+  Lemma reach_curin s : reach s -> curin (sS s) /\ curin (sM s) /\ curin (sA s).
+  Proof.
+    induction 1 as [|s s' R IH St]; [repeat split; left; split; reflexivity|]. destruct IH as (CS & CM & CA).
+    destruct St; simpl; repeat split; try assumption.
+    - eapply add_event_curin; eassumption.
+    - eapply apply_update_curin; [exact CM|eassumption].
+    - eapply apply_update_curin; [exact CA|eassumption].
+    - eapply load_journal_curin; eassumption.
+    - eapply load_journal_curin; eassumption.
+  Qed.
+
+  (* along the chain, a node whose cursor is behind its upstream's version receives a non-empty answer for every
+     choice of the limits; so "the diff is empty" happens only when the cursor has reached the upstream's version *)
+  Theorem delivery_makes_progress s sz mi mb : reach s ->
+    (j_loader (sM s) < j_cur (sS s) -> journal_diff sz (sS s) (j_loader (sM s)) mi mb <> []) /\
+    (j_loader (sA s) < j_cur (sM s) -> journal_diff sz (sM s) (j_loader (sA s)) mi mb <> []).
+  Proof.
+    intro R. destruct (reach_curin s R) as (CS & CM & _).
+    apply reach_inv in R as (WS & WM & WA & PM & PA & RM & RA & CM' & CA').
+    destruct PM as (PM & _). destruct PA as (PA & _). destruct RM as (_ & _ & RMc). destruct RA as (_ & _ & RAc).
+    split; intro L; apply diff_progress; try assumption; lia.
+  Qed.
+
+  (* hence: both diffs empty <-> both cursors have reached the source's version, where replica_converges applies *)
+  Theorem empty_diffs_mean_converged s sz mi mb : reach s ->
+    journal_diff sz (sS s) (j_loader (sM s)) mi mb = [] ->
+    journal_diff sz (sM s) (j_loader (sA s)) mi mb = [] ->
+    j_entries (sM s) = j_entries (sS s) /\ j_entries (sA s) = map wire (j_entries (sS s)).
+  Proof.
+    intros R D1 D2. destruct (delivery_makes_progress s sz mi mb R) as (P1 & P2).
+    destruct (reach_curin s R) as (CS & CM & _).
+    pose proof (reach_inv s R) as (WS & WM & WA & PM & PA & RM & RA & _).
+    assert (L1 : j_cur (sS s) <= j_loader (sM s)) by (destruct (Z_le_gt_dec (j_cur (sS s)) (j_loader (sM s))); [assumption|exfalso; apply P1; [lia|exact D1]]).
+    assert (L2 : j_cur (sM s) <= j_loader (sA s)) by (destruct (Z_le_gt_dec (j_cur (sM s)) (j_loader (sA s))); [assumption|exfalso; apply P2; [lia|exact D2]]).
+    destruct (replica_converges s R) as (E1 & E2). pose proof (E1 L1) as EM. split; [exact EM|]. apply E2.
+    (* currentVersion of M equals that of S once M holds S's entries *)
+    destruct CS as [[ES C0]|(e & Ie & Ee)].
+    - destruct RA as (_ & _ & RAc). destruct PA as (PA & _). lia.
+    - destruct WM as (_ & _ & FM). rewrite Forall_forall in FM. rewrite <- EM in Ie. specialize (FM _ Ie). lia.
+  Qed.
 End Sys.
